@@ -1,18 +1,28 @@
 #!/usr/bin/env python3
 """(G) tie for C08: re-emit lean/CamVerif/Gen/AckTables.lean from the CURRENT
 /repo/device/src/u3v/protocol/{ack,event}.rs: prefix magics, event command id, the
-namespace shift/mask expression and namespace arms of `Status::parse`, the fatal-bit
-shift, the GenCP / USB status-code match tables and the ScdKind command-id table.
-The tables are emitted with the *model's* constructors (Rust variant `FooBar` ->
-Lean `.fooBar`), so an added / renamed variant makes the generated file fail to compile.
-Fails loudly when a construct it relies on is not found."""
+namespace shift/mask expression and namespace arms of `Status::parse`, the GenCP / USB
+status-code match tables and the ScdKind command-id table.
+
+What is pinned is the VALUE content (literals, which arm leads where, variant names); local
+identifiers, `Self::` vs the type name, type ascription vs turbofish, error texts and the body
+of `is_fatal` (decided by the exhaustive 65536-code sweep of the harness) are NOT pinned.
+The tables are emitted with the *model's* constructors (Rust variant `FooBar` -> Lean
+`.fooBar`), so an added / renamed variant makes the generated file fail to compile.
+Every arm of a translated `match` must be a plain literal arm: or-patterns, guards, ranges,
+bindings are refused loudly, never dropped.  `--out <file>` writes elsewhere (tests)."""
 import hashlib, os, re, sys
 REPO = os.environ.get("VERIF_REPO", "/repo")
 ACK = os.path.join(REPO, "device/src/u3v/protocol/ack.rs")
 EVT = os.path.join(REPO, "device/src/u3v/protocol/event.rs")
 OUT = os.path.join(os.path.dirname(os.path.dirname(os.path.abspath(__file__))), "lean/CamVerif/Gen/AckTables.lean")
+if "--out" in sys.argv:
+    OUT = sys.argv[sys.argv.index("--out") + 1]
 ack = open(ACK).read()
 evt = open(EVT).read()
+
+LIT = r"(0b[01_]+|0x[0-9a-fA-F_]+|\d[\d_]*)(?:_?[iu](?:8|16|32|64|size))?"
+ID = r"[A-Za-z_]\w*"
 
 
 def die(msg):
@@ -21,7 +31,7 @@ def die(msg):
 
 
 def lit(s):
-    e = s.strip().replace("_i32", "").replace("_u16", "").replace("_u32", "").replace("_", "")
+    e = re.sub(r"_?[iu](8|16|32|64|size)$", "", s.strip()).replace("_", "")
     try:
         return int(e, 0)
     except ValueError:
@@ -36,12 +46,8 @@ def lean_ctor(v):
     return v[0].lower() + v[1:]
 
 
-def fn_body(src, sig_re, what):
-    m = re.search(sig_re, src)
-    if not m:
-        die(what)
-    # opening brace of the function body = last `{` of the signature part of the pattern
-    i = src.index("-> ", m.start())
+def block_at(src, i):
+    """text between the `{` at/after index i and its matching `}`"""
     i = src.index("{", i)
     depth, j = 0, i
     while True:
@@ -50,9 +56,33 @@ def fn_body(src, sig_re, what):
         elif src[j] == "}":
             depth -= 1
             if depth == 0:
+                return src[i + 1:j]
+        j += 1
+
+
+def impl_block(src, ty):
+    blocks = [block_at(src, m.end() - 1) for m in re.finditer(r"\bimpl(?:<[^>]*>)?\s+%s(?:<[^>]*>)?\s*\{" % ty, src)]
+    if not blocks:
+        die("impl " + ty)
+    return "\n".join(blocks)
+
+
+def fn_in(block, name, what):
+    ms = list(re.finditer(r"\bfn\s+%s\s*(?:<[^>]*>)?\s*\(" % name, block))
+    if len(ms) != 1:
+        die("%s: expected exactly one fn %s, found %d" % (what, name, len(ms)))
+    m = ms[0]
+    # parameter list -> first `{` after the closing parenthesis / return type
+    depth, j = 0, m.end() - 1
+    while True:
+        if block[j] == "(":
+            depth += 1
+        elif block[j] == ")":
+            depth -= 1
+            if depth == 0:
                 break
         j += 1
-    return strip_comments(src[i + 1:j])
+    return strip_comments(block_at(block, j))
 
 
 def const(src, name, what):
@@ -62,85 +92,107 @@ def const(src, name, what):
     return lit(m.group(1))
 
 
-out = []
-ack_magic = const(ack, "PREFIX_MAGIC", "ack PREFIX_MAGIC")
-evt_magic = const(evt, "PREFIX_MAGIC", "event PREFIX_MAGIC")
-evt_cmd = const(evt, "EVENT_COMMAND_ID", "EVENT_COMMAND_ID")
-
-# Status::parse: namespace expression and arms
-body = fn_body(ack, r"fn parse\(cursor: &mut Cursor<&\[u8\]>\) -> Result<Self> \{\s*let code: u16", "Status::parse")
-m = re.search(r"let namespace = \(code >> ([0-9a-fx_i]+)\) & ([0-9a-fxb_]+);", body)
-if not m:
-    die("namespace expression `(code >> S) & M`")
-ns_shift, ns_mask = lit(m.group(1)), lit(m.group(2))
-m = re.search(r"match namespace \{(.*)\}", body, re.S)
-if not m:
-    die("match namespace")
-# strict: the whole block must be a sequence of arms of exactly these four shapes
-arms_src = " ".join(m.group(1).split())
-LIT = r"(0b[01_]+|0x[0-9a-fA-F_]+|\d[\d_]*)"
-shapes = [
-    (re.compile(LIT + r" => Self::parse_gencp_status\(code\), ?"), "genCp"),
-    (re.compile(LIT + r" => Self::parse_usb_status\(code\), ?"), "usb"),
-    (re.compile(LIT + r" => Ok\(Self \{ code, kind: StatusKind::DeviceSpecific, \}\), ?"), "deviceSpecific"),
-    (re.compile(r"(_) => Err\(Error::InvalidPacket\( ?\"[^\"]*\"\.into\(\),? ?\)\), ?"), "error"),
-]
-ns_arms, pos = [], 0
-while pos < len(arms_src):
-    for rx, target in shapes:
-        mm = rx.match(arms_src, pos)
-        if mm:
-            ns_arms.append((mm.group(1), target))
-            pos = mm.end()
-            break
-    else:
-        die("unsupported arm in `match namespace` at: " + arms_src[pos:pos + 60])
-if not ns_arms or ns_arms[-1] != ("_", "error") or [a for a in ns_arms if a[0] == "_"] != [("_", "error")]:
-    die("default namespace arm is not the (last) error arm")
-ns_arms = [(lit(p), t) for p, t in ns_arms if p != "_"]
-
-# is_fatal
-body = fn_body(ack, r"pub fn is_fatal\(self\) -> bool \{", "Status::is_fatal")
-m = re.fullmatch(r"\s*self\.code >> ([0-9a-fx_i]+) == 1\s*", body)
-if not m:
-    die("is_fatal body `self.code >> S == 1`")
-fatal_shift = lit(m.group(1))
+def match_block(body, head_re, what):
+    """inner text of `match <scrutinee> {...}` introduced by head_re (which ends at the `{`)"""
+    ms = list(re.finditer(head_re, body))
+    if len(ms) != 1:
+        die("%s: expected exactly one match, found %d" % (what, len(ms)))
+    return ms[0], block_at(body, ms[0].end() - 1)
 
 
-def strict_rows(block, row_re, what):
-    """every non-blank line of a match block must be exactly one literal arm (no or-patterns,
-    guards, ranges, bindings, multi-line arms): anything else is refused, never dropped"""
+def split_arms(text, what):
+    """top-level arms `pat => expr` of a match block, as whitespace-collapsed strings"""
+    arms, depth, cur = [], 0, ""
+    i = 0
+    while i < len(text):
+        c = text[i]
+        if c in "({[":
+            depth += 1
+        elif c in ")}]":
+            depth -= 1
+        cur += c
+        # an arm ends at a top-level `,`, or after a top-level `}` that closes a block arm
+        if depth == 0 and (c == "," or (c == "}" and "=>" in cur)):
+            if cur.strip().strip(","):
+                arms.append(" ".join(cur.strip().rstrip(",").split()))
+            cur = ""
+        i += 1
+    if cur.strip():
+        arms.append(" ".join(cur.strip().split()))
+    if not arms:
+        die(what + ": no arms")
+    return arms
+
+
+def literal_arms(text, rhs_re, what, default_re):
+    """every arm must be `LIT => <rhs_re with one group>`; the last arm must be the default"""
+    arms = split_arms(text, what)
+    if not re.fullmatch(default_re, arms[-1]):
+        die("%s: last arm is not the expected default (error) arm: `%s`" % (what, arms[-1][:80]))
     rows = []
-    for line in block.splitlines():
-        if not line.strip():
-            continue
-        mm = re.fullmatch(row_re, line)
+    for a in arms[:-1]:
+        mm = re.fullmatch(LIT + r" => " + rhs_re, a)
         if not mm:
-            die("%s: unsupported arm `%s`" % (what, line.strip()))
+            die("%s: unsupported arm `%s`" % (what, a[:80]))
         rows.append((lit(mm.group(1)), mm.group(2)))
     if not rows:
-        die(what + " arms")
+        die(what + ": no literal arms")
     if len(set(c for c, _ in rows)) != len(rows):
         die(what + ": duplicate code")
     return rows
 
 
+ack_magic = const(ack, "PREFIX_MAGIC", "ack PREFIX_MAGIC")
+evt_magic = const(evt, "PREFIX_MAGIC", "event PREFIX_MAGIC")
+evt_cmd = const(evt, "EVENT_COMMAND_ID", "EVENT_COMMAND_ID")
+
+status_impl = impl_block(ack, "Status")
+
+# ---- Status::parse: `let <ns> = (<code> >> S) & M;  match <ns> { arms }`
+body = fn_in(status_impl, "parse", "Status::parse")
+ms = list(re.finditer(r"let (%s)(?:\s*:\s*\w+)? = \((%s) >> %s\) & %s;" % (ID, ID, LIT, LIT), body))
+if len(ms) != 1:
+    die("Status::parse: namespace expression `let ns = (code >> S) & M;`")
+ns_var, code_var = ms[0].group(1), ms[0].group(2)
+ns_shift, ns_mask = lit(ms[0].group(3)), lit(ms[0].group(4))
+_, arms_src = match_block(body, r"match %s \{" % re.escape(ns_var), "match on the namespace")
+ERR_DEFAULT = r"_ => (?:return )?Err\(.*\)"
+ns_arms = []
+arms = split_arms(arms_src, "match namespace")
+if not re.fullmatch(ERR_DEFAULT, arms[-1]):
+    die("match namespace: last arm is not `_ => Err(..)`: `%s`" % arms[-1][:80])
+SELF = r"(?:Self|Status)"
+for a in arms[:-1]:
+    for rx, target in (
+        (LIT + r" => %s::parse_gencp_status\(%s\)" % (SELF, re.escape(code_var)), "genCp"),
+        (LIT + r" => %s::parse_usb_status\(%s\)" % (SELF, re.escape(code_var)), "usb"),
+        (LIT + r" => Ok\(%s \{ (?:code(?:: %s)?, kind: StatusKind::DeviceSpecific|kind: StatusKind::DeviceSpecific, code(?:: %s)?),? \}\)"
+         % (SELF, re.escape(code_var), re.escape(code_var)), "deviceSpecific"),
+    ):
+        mm = re.fullmatch(rx, a)
+        if mm:
+            ns_arms.append((lit(mm.group(1)), target))
+            break
+    else:
+        die("match namespace: unsupported arm `%s`" % a[:90])
+if len(set(p for p, _ in ns_arms)) != len(ns_arms):
+    die("match namespace: duplicate pattern")
+ns_arms.sort()
+
+
 def code_table(fn, what):
-    b = fn_body(ack, r"fn %s\(code: u16\) -> Result<Self> \{" % fn, what)
-    m = re.search(r"let status = match code \{\n(.*?)\n\s*_ => \{\s*return Err\(Error::InvalidPacket\(", b, re.S)
-    if not m:
-        die(what + " match (with an InvalidPacket default arm)")
-    return strict_rows(m.group(1), r"\s*(0x[0-9a-fA-F_]+|\d[\d_]*)\s*=>\s*(\w+),\s*", what)
+    b = fn_in(status_impl, fn, what)
+    head, text = match_block(b, r"let %s = match %s \{" % (ID, ID), what + ": `let status = match code {`")
+    # default arm: an error return (block or expression)
+    return literal_arms(text, r"(?:%s::)*(%s)" % (ID, ID), what, r"_ => (?:\{ )?(?:return )?Err\(.*\)(?: \})?")
 
 
 gencp = code_table("parse_gencp_status", "parse_gencp_status")
 usb = code_table("parse_usb_status", "parse_usb_status")
 
-body = fn_body(ack, r"impl ScdKind \{\s*fn parse\(cursor: &mut Cursor<&\[u8\]>\) -> Result<Self> \{", "ScdKind::parse")
-m = re.search(r"match id \{\n(.*?)\n\s*_ => Err\(Error::InvalidPacket\(", body, re.S)
-if not m:
-    die("ScdKind::parse match (with an InvalidPacket default arm)")
-kinds = strict_rows(m.group(1), r"\s*(0x[0-9a-fA-F_]+|\d[\d_]*)\s*=>\s*Ok\(ScdKind::(\w+)\),\s*", "ScdKind::parse")
+body = fn_in(impl_block(ack, "ScdKind"), "parse", "ScdKind::parse")
+_, text = match_block(body, r"match %s \{" % ID, "ScdKind::parse match")
+kinds = literal_arms(text, r"Ok\((?:Self|ScdKind)::(%s)\)" % ID, "ScdKind::parse", r"_ => (?:return )?Err\(.*\)")
 
 h = hashlib.sha1((ack + evt).encode()).hexdigest()[:16]
 L = ["/- GENERATED by tools/gen_ack_tables.py from device/src/u3v/protocol/{ack,event}.rs — do not edit.",
@@ -153,8 +205,7 @@ L = ["/- GENERATED by tools/gen_ack_tables.py from device/src/u3v/protocol/{ack,
      f"def EVENT_COMMAND_ID : Nat := {evt_cmd}",
      f"def NAMESPACE_SHIFT : Nat := {ns_shift}",
      f"def NAMESPACE_MASK : Nat := {ns_mask}",
-     f"def FATAL_SHIFT : Nat := {fatal_shift}",
-     "/-- arms of `match namespace` (the default arm is the error arm) -/",
+     "/-- arms of the `match` on the namespace (the default arm is the error arm) -/",
      "def namespaceArms : List (Nat × String) := [" + ", ".join(f'({p}, "{t}")' for p, t in ns_arms) + "]",
      "/-- arms of `match code` in `parse_gencp_status` -/",
      "def gencpStatus : List (Nat × GenCpStatus) := [" + ", ".join(f"({c}, .{lean_ctor(v)})" for c, v in gencp) + "]",
@@ -165,6 +216,6 @@ L = ["/- GENERATED by tools/gen_ack_tables.py from device/src/u3v/protocol/{ack,
      "", "end CamVerif.Gen.AckTables", ""]
 new = "\n".join(L)
 if not os.path.exists(OUT) or open(OUT).read() != new:
-    os.makedirs(os.path.dirname(OUT), exist_ok=True)
+    os.makedirs(os.path.dirname(OUT) or ".", exist_ok=True)
     open(OUT, "w").write(new)
 print("HASH device/src/u3v/protocol/ack.rs+event.rs", h)
